@@ -163,6 +163,20 @@ Theorem nstep_leak_refuted :
 Proof. exact pinned_leaks. Qed.
 Print Assumptions nstep_leak_refuted.
 
+(* layout of the two batches handed to the learner when the 1-step buffer is prioritised (shape
+   model only; tied to the code by the oracle clause learner-batch-shape, not by K): the tree's
+   sample_from_indices returns batch shape [B;1] next to [B] — refuted; with the drafted repair
+   (flattened indices) the shapes agree for every B *)
+Theorem per_batch_shape_refuted :
+  exists B, from_indices_shape_pinned (per_idxs_shape B) <> per_rows_shape B.
+Proof. exact shape_pinned_differs. Qed.
+Print Assumptions per_batch_shape_refuted.
+
+Theorem per_batch_shape_repaired :
+  forall B, from_indices_shape_repaired (per_idxs_shape B) = per_rows_shape B.
+Proof. exact shape_repaired_agrees. Qed.
+Print Assumptions per_batch_shape_repaired.
+
 (* ---------- non-vacuity ---------- *)
 (* two environments, n = 3, capacity 4 (both buffers wrap): env 1 ends at step 1, env 0 at step 3 *)
 Definition ex_stream : list vtr :=
